@@ -26,7 +26,7 @@ ASSUMPTIONS = ['slashes repeated at the very start of PATH_INFO are folded by We
 REQUIRED_REACH = ['redirect:issued', 'redirect:followed-ok', 'redirect:significant-chars', 'canonical:no-redirect',
                   'strict:noncanonical-not-matched', 'rewrite:executed-directly', 'method-not-admitted:no-redirect',
                   'leaf:no-redirect', 'mode-source:app', 'mode-source:route-optout', 'mode-source:embedding-inherit',
-                  'mode-source:embedding-optout', 'script-name:set', 'query:nonempty']
+                  'mode-source:embedding-optout', 'script-name:set', 'query:nonempty', 'warmup-request-with-other-query']
 NSHARDS = 16
 MODES = ['redirect', 'rewrite', 'strict']
 SEGS = ['abc', 'a b', 'a?b', 'a#b', 'a%b', 'a%41b', 'a;b', 'a&b=c', 'é', 'a+b', '..', '%2F', '.', 'a=b', 'a"b', "a'b",
@@ -137,7 +137,8 @@ def gen_case(rng):
         segs = [seg(rng) for _ in range(rng.randint(1, 4))]
     return {'levels': levels, 'route': route, 'segs': segs, 'noise': rng.pick(NOISES),
             'query': rng.pick(QUERIES) if rng.chance(0.7) else '', 'method': rng.pick(METHODS + ['GET'] * 6 + ['POST'] * 3),
-            'script': rng.pick(['', '', '/mount', '/m/n', '/café x'])}
+            'script': rng.pick(['', '', '/mount', '/m/n', '/café x']),
+            'warmup': rng.pick(['first=1&page=2', 'z', '']) if rng.chance(0.3) else None}
 
 
 NOISES = ['canonical', 'no-trailing', 'double-inner', 'double-trailing', 'triple-trailing', 'double-everything',
@@ -183,9 +184,22 @@ def decoded_request_path(case):
     return path, branch
 
 
+_tree_cache = {}
+
+
+def cached_tree(case):
+    """one long-lived application per tree description: caches and memos inside the framework get a chance to go stale"""
+    key = json.dumps([case['levels'], case['route']], sort_keys=True)
+    if key not in _tree_cache:
+        if len(_tree_cache) > 400:
+            _tree_cache.clear()
+        _tree_cache[key] = build_tree(case)
+    return _tree_cache[key]
+
+
 def judge(sh, case, record=True):
     try:
-        app = build_tree(case)
+        app = cached_tree(case)
     except Exception as e:
         sh.violation('C07/construction-failed', 'building the tree raised %r' % e, case)
         return
@@ -197,6 +211,10 @@ def judge(sh, case, record=True):
     admitted = (not r['methods']) or method in r['methods'] or (method == 'HEAD' and 'GET' in r['methods'])
     noncanonical = path != canon
     script = case['script']
+    if case.get('warmup') is not None:
+        # the same path asked for before with another query string (and another method): nothing may stick
+        probe.call_wsgi(app, probe.make_environ('GET', path, case['warmup'], script_name=probe.wsgi_str(script)))
+        sh.hit('warmup-request-with-other-query')
     env = probe.make_environ(method, path, case['query'], script_name=probe.wsgi_str(script))
     ex = probe.call_wsgi(app, env)
     sh.hit('mode-source:' + source)
@@ -382,8 +400,19 @@ def plan(tier, seed):
 
 def run_shard(sh, spec):
     rng = Rng(spec['seed'], PROPERTY, spec['label'])
+    pool = []
     for _ in range(spec['n']):
-        judge(sh, gen_case(rng))
+        case = gen_case(rng)
+        if pool and rng.chance(0.5):
+            # re-use the application of an earlier case (same tree, same route) with a fresh request
+            old = rng.pick(pool)
+            if old['route']['kind'] == case['route']['kind']:
+                case['levels'], case['route'] = old['levels'], old['route']
+                sh.hit('application-reused-across-cases')
+        pool.append(case)
+        if len(pool) > 60:
+            pool.pop(0)
+        judge(sh, case)
     hostile_queries(sh, rng, 40)
 
 
